@@ -34,7 +34,7 @@ Section Styles.
     ++ (if o_summary_tooltip o then [STooltip] else []) ++ [SSummary].
   Definition key_styles : list style_id := (if o_key_tooltip o then [STooltip] else []) ++ [SObjectKey].
 
-  Fixpoint tvs (name : option key) (path : list key) (incl excl : option (list key)) (v : pv) {struct v} : list style_id :=
+  Fixpoint tvs (title : option str) (name : option key) (path : list key) (incl excl : option (list key)) (v : pv) {struct v} : list style_id :=
     let content :=
       match v with
       | PLeaf _ _ _ _ _ _ => [SSimple]
@@ -42,15 +42,15 @@ Section Styles.
           let rendered :=
             map (fun kc : key * pv =>
                    (fst kc, if is_label_at o is_seq path (fst kc)
-                            then key_styles ++ tvs None (path ++ [fst kc]) None None (snd kc)
-                            else tvs (Some (fst kc)) (path ++ [fst kc]) None None (snd kc))) items in
+                            then key_styles ++ tvs None None (path ++ [fst kc]) None None (snd kc)
+                            else tvs None (Some (fst kc)) (path ++ [fst kc]) None None (snd kc))) items in
           let order := order_at o path incl excl (map fst items) in
           let pick := flat_map (fun k => match assoc_key k rendered with Some h => h | None => [] end) in
           pick (filter (fun k => negb (is_label_at o is_seq path k)) order) ++ pick (filter (is_label_at o is_seq path) order) ++ [SComplex]
       end in
-    if needs_summary o name v then summary_styles name ++ content ++ [SDetails] else content.
+    if needs_summary_t o title name v then summary_styles name ++ content ++ [SDetails] else content.
 
-  Definition styles_of (v : pv) : list style_id := dedup_styles [] (tvs (o_name o) (o_root_path o) (o_include o) (o_exclude o) v).
+  Definition styles_of (v : pv) : list style_id := dedup_styles [] (tvs (o_title o) (o_name o) (o_root_path o) (o_include o) (o_exclude o) v).
 End Styles.
 
 (* two values of the same shape: same keys, same kinds of leaves, strings of the same length -- every other string
